@@ -171,7 +171,7 @@ func vc06RunProbe(p *vc06Probe, udpAddr, tcpAddr net.Addr) {
 func TestVerifC06Pools(t *testing.T) {
 	st := vstat.New("C06", "dnsserver.pools-after-error-paths",
 		"rapid (disturbances: 0-32 TCP messages whose body is cut short by a disconnect, 0-12 connections with more pipelined slow queries than the pipeline limit; then 2-8 concurrent clients with valid queries over UDP and TCP, TCP frames in one or two segments) against one long-lived real ServerDNS with pipeline limiting and a request time-out; oracle = digest of the query's own bytes, no response with an ID the client never sent; non-trivial = a disturbance precedes concurrent probes; distinct by (disturbances, probe shapes)",
-		"aborted-bodies", "pipeline-overflow", "udp-probe-longer-than-overflow-query", "tcp-split-probe-with-concurrent-tcp-probe", "no-disturbance")
+		"aborted-bodies", "pipeline-overflow", "udp-probe-longer-than-overflow-query", "tcp-split-probe-with-concurrent-tcp-probe", "no-disturbance", "half-closed-cut-query")
 	st.Finish(t)
 
 	var srv *ServerDNS
@@ -216,6 +216,48 @@ func TestVerifC06Pools(t *testing.T) {
 		if nAbort > 0 {
 			classes = append(classes, "aborted-bodies")
 			fmt.Fprintf(desc, "abort=%d ", nAbort)
+		}
+
+		// Disturbance 1b: a valid query cut inside its question, the frame
+		// announcing the whole length, and the client then only closes its
+		// sending side and keeps reading.  The server cannot have the rest of
+		// the message: whatever it answers must be derived from the octets that
+		// were sent, not from what an earlier message left in the buffer.
+		nHalf := rapid.SampledFrom([]int{0, 0, 1, 2, 4}).Draw(t, "halfClosedCutQueries")
+		for i := 0; i < nHalf; i++ {
+			full := vc06ProbeMsg(uint16(rapid.IntRange(100, 999).Draw(t, "cutID")), rapid.IntRange(4, 40).Draw(t, "cutNameLen"), rapid.Bool().Draw(t, "cutEdns"), false, 0)
+			cut := rapid.IntRange(13, len(full)-1).Draw(t, "cutAt")
+			c, err := net.Dial("tcp", tcpAddr.String())
+			if err != nil {
+				fmt.Println("VERIF-INCONCLUSIVE: cannot connect:", err)
+				t.FailNow()
+			}
+
+			_, _ = c.Write(append(binary.BigEndian.AppendUint16(nil, uint16(len(full))), full[:cut]...))
+			_ = c.(*net.TCPConn).CloseWrite()
+			_ = c.SetReadDeadline(time.Now().Add(2 * time.Second))
+			var l uint16
+			if binary.Read(c, binary.BigEndian, &l) == nil {
+				b := make([]byte, l)
+				if _, rerr := io.ReadFull(c, b); rerr == nil {
+					m := &dns.Msg{}
+					if m.Unpack(b) == nil {
+						if got, want := vc06Got(m), vc06Expect(full[:cut]); got != want {
+							_ = c.Close()
+							st.Case(fmt.Sprintf("half-close cut=%d of %d", cut, len(full)), append(classes, "half-closed-cut-query")...)
+							t.Fatalf("a frame announcing %d octets carried only %x and the client half-closed: the server answered %q, the octets sent imply %q (the rest came from an earlier message)",
+								len(full), full[:cut], got, want)
+						}
+					}
+				}
+			}
+
+			_ = c.Close()
+		}
+
+		if nHalf > 0 {
+			classes = append(classes, "half-closed-cut-query")
+			fmt.Fprintf(desc, "halfclose=%d ", nHalf)
 		}
 
 		// Disturbance 2: over-full pipelines.  The extra queries wait for a
@@ -317,7 +359,7 @@ func TestVerifC06Pools(t *testing.T) {
 		wg.Wait()
 
 		nt := ""
-		if nAbort > 0 || nOver > 0 {
+		if nAbort > 0 || nOver > 0 || nHalf > 0 {
 			nt = desc.String()
 		}
 
